@@ -4,9 +4,11 @@ Property theorems only (helper lemmas live in Lemmas/Chunked.lean).
 -/
 import WzVerif.Model.Chunked
 import WzVerif.Lemmas.Chunked
+import WzVerif.Model.DevServer
+import WzVerif.Lemmas.DevServer
 import WzVerif.Gen.Framing
 namespace Wz.Props.C19
-open Wz Wz.Chunked Wz.Gen.Framing
+open Wz Wz.Chunked Wz.DevServer Wz.Gen.Framing
 
 /-- bit `k` of `n` -/
 def bit (n k : Nat) : Bool := (n / 2 ^ k) % 2 == 1
@@ -233,5 +235,217 @@ theorem header_folding (hs : List (Str × Str)) (k : Str) (hk : isContentKey k =
 
 example : foldHeaders [("X-A".toList, "1".toList), ("X_A".toList, "2".toList), ("x-a".toList, "3".toList)]
     = [("HTTP_X_A".toList, "1,3".toList)] := by decide
+
+/-! ### make_environ: request line -> PATH_INFO / QUERY_STRING / HTTP_HOST / wsgi.input_terminated -/
+
+/-- **environ_path_roundtrip** (origin-form). For every text `cs`, every percent-encoding `l` of the
+UTF-8 bytes of `cs` (each byte literal — printable ASCII other than `%`, `?`, `#` — or `%XY` in either
+hex case), an optional query `q` of printable ASCII without `#`, every method, version and header list:
+if the path does not start with a second slash, the environ's PATH_INFO is `"/" + cs` tunnelled through
+latin-1 — the application's `PATH_INFO.encode("latin-1")` is exactly the UTF-8 of the percent-decoded
+path the client sent, `.decode("utf-8")` gives `"/" ++ cs` — QUERY_STRING is the query verbatim, and
+REQUEST_METHOD / SERVER_PROTOCOL are passed through. (`http.server` hands such a target to the handler
+unchanged: `httpServerPath`.) -/
+theorem environ_path_roundtrip (cs : List Char) (l : List (UInt8 × PEnc)) (hv : ValidEnc l)
+    (hl : l.map (·.1) = utf8Enc cs) (hslash : (pctEncode l).head? ≠ some '/')
+    (q : Str) (hasQ : Bool) (hq : ∀ c ∈ q, c ≠ '#' ∧ domChar c = true)
+    (cmd ver : Str) (hs : List (Str × Str)) :
+    httpServerPath ('/' :: pctEncode l ++ (if hasQ then '?' :: q else []))
+      = '/' :: pctEncode l ++ (if hasQ then '?' :: q else []) ∧
+    ∃ e, makeEnviron cmd ('/' :: pctEncode l ++ (if hasQ then '?' :: q else [])) ver hs = some e ∧
+      Py.latin1Enc e.pathInfo = some (utf8Enc ('/' :: cs)) ∧
+      (Py.latin1Enc e.pathInfo).bind utf8Dec? = some ('/' :: cs) ∧
+      e.query = (if hasQ then q else []) ∧ e.method = cmd ∧ e.protocol = ver := by
+  constructor
+  · cases hp : pctEncode l with
+    | nil => cases hasQ <;> rfl
+    | cons c t =>
+      have : c ≠ '/' := by rw [hp] at hslash; simpa using hslash
+      simp only [List.cons_append, httpServerPath]
+      split
+      · rename_i heq; simp only [List.cons.injEq, true_and] at heq; exact absurd heq.1 this
+      · rfl
+  · have hchars := pctEncode_chars hv
+    have hsplit := urlsplit_origin (pctEncode l) q hasQ
+      (fun c hc => ⟨(hchars c hc).1, (hchars c hc).2.1, (hchars c hc).2.2⟩) hslash hq
+    have hdec : pctDecode ('/' :: pctEncode l) = utf8Enc ('/' :: cs) := by
+      rw [pctDecode_lit _ _ (by decide)]
+      have := pctDecode_pctEncode l [] hv
+      simp only [List.append_nil, pctDecode] at this
+      rw [this, hl]
+      rfl
+    have hpi : unquoteDance ('/' :: pctEncode l) = Py.latin1Dec (utf8Enc ('/' :: cs)) := by
+      unfold unquoteDance
+      rw [hdec, Py.decodeReplace_utf8Enc]
+    refine ⟨_, by simp only [makeEnviron, hsplit]; rfl, ?_, ?_, ?_, rfl, rfl⟩
+    · simp only [List.isEmpty_nil, Bool.not_true, Bool.and_false, Bool.false_eq_true, if_false, hpi,
+        latin1Enc_latin1Dec]
+    · simp only [List.isEmpty_nil, Bool.not_true, Bool.and_false, Bool.false_eq_true, if_false, hpi,
+        latin1Enc_latin1Dec, Option.bind_some, utf8Dec_utf8Enc]
+    · simp only
+      cases hasQ with
+      | false => rfl
+      | true =>
+        simp only [if_true]
+        apply dance_ascii
+        intro c hc
+        have := (hq c hc).2
+        simp only [domChar, Bool.and_eq_true, decide_eq_true_eq] at this
+        omega
+
+/-- a path with a space, `é` and `日`: `/a%20b/%C3%A9` … -/
+example : (makeEnviron "GET".toList "/a%20b/%C3%A9?q=%20".toList "HTTP/1.1".toList []).map
+    (fun e => (e.pathInfo, e.query)) = some ("/a b/\u00c3\u00a9".toList, "q=%20".toList) := by
+  decide +kernel
+
+/-- **environ_path_roundtrip** (absolute-form). For `scheme://netloc/path?query` the same holds for
+the path — which here may start with `//` — and `environ["HTTP_HOST"]` is the target's authority,
+overriding any Host header. -/
+theorem environ_absolute_form (sch n : Str) (cs : List Char) (l : List (UInt8 × PEnc)) (hv : ValidEnc l)
+    (hl : l.map (·.1) = utf8Enc cs) (hs0 : headIsAlpha sch = true) (hsc : sch.all isSchemeChar = true)
+    (hn : ∀ c ∈ n, netlocChar c = true) (hn0 : n ≠ [])
+    (q : Str) (hasQ : Bool) (hq : ∀ c ∈ q, c ≠ '#' ∧ domChar c = true)
+    (cmd ver : Str) (hs : List (Str × Str)) :
+    ∃ e, makeEnviron cmd (sch ++ ':' :: ('/' :: '/' :: (n ++ ('/' :: pctEncode l ++ (if hasQ then '?' :: q else [])))))
+        ver hs = some e ∧
+      Py.latin1Enc e.pathInfo = some (utf8Enc ('/' :: cs)) ∧
+      e.query = (if hasQ then q else []) ∧ e.headers.get "HTTP_HOST".toList = some n := by
+  have hchars := pctEncode_chars hv
+  have hsplit := urlsplit_absolute sch n (pctEncode l) q hasQ hs0 hsc hn
+    (fun c hc => ⟨(hchars c hc).1, (hchars c hc).2.1, (hchars c hc).2.2⟩) hq
+  have hdec : pctDecode ('/' :: pctEncode l) = utf8Enc ('/' :: cs) := by
+    rw [pctDecode_lit _ _ (by decide)]
+    have := pctDecode_pctEncode l [] hv
+    simp only [List.append_nil, pctDecode] at this
+    rw [this, hl]
+    rfl
+  have hpi : unquoteDance ('/' :: pctEncode l) = Py.latin1Dec (utf8Enc ('/' :: cs)) := by
+    unfold unquoteDance
+    rw [hdec, Py.decodeReplace_utf8Enc]
+  have hsne : sch ≠ [] := by intro e; subst e; simp [headIsAlpha] at hs0
+  have h1 : (sch.map lowerAscii).isEmpty = false := by
+    cases sch with
+    | nil => exact absurd rfl hsne
+    | cons => rfl
+  have h2 : n.isEmpty = false := by
+    cases n with
+    | nil => exact absurd rfl hn0
+    | cons => rfl
+  refine ⟨_, by simp only [makeEnviron, hsplit]; rfl, ?_, ?_, ?_⟩
+  · simp only [h1, Bool.false_and, Bool.false_eq_true, if_false, hpi, latin1Enc_latin1Dec]
+  · simp only
+    cases hasQ with
+    | false => rfl
+    | true =>
+      simp only [if_true]
+      apply dance_ascii
+      intro c hc
+      have := (hq c hc).2
+      simp only [domChar, Bool.and_eq_true, decide_eq_true_eq] at this
+      omega
+  · simp only [h1, h2, Bool.not_false, Bool.and_self, if_true, Env.get_set_same]
+
+example : (makeEnviron "GET".toList "http://abs.example:8080//p/%2F?x=1".toList "HTTP/1.1".toList
+    [("Host".toList, "other".toList)]).map (fun e => (e.pathInfo, e.query, e.headers))
+    = some ("//p//".toList, "x=1".toList, [("HTTP_HOST".toList, "abs.example:8080".toList)]) := by
+  decide +kernel
+
+/-- **Known finding F19b, in the model**: the property asks that the application sees exactly the
+percent-decoded path the client sent, also for `//` prefixes. At full strength this is false: an
+origin-form target that starts with `//` reaches the application with a single leading slash.
+CPython ≥ 3.12's `http.server` collapses the slashes before the handler runs (`httpServerPath`), and
+`make_environ`'s own `//` repair (`"/" + netloc + path`) produces the same single slash when it is
+given the target unchanged — `environ_path_roundtrip` excludes exactly these targets. -/
+theorem environ_path_double_slash_false :
+    ¬ (∀ (target : Str) (e : Environ), target.head? = some '/' → inDomain target = true →
+        makeEnviron "GET".toList (httpServerPath target) "HTTP/1.1".toList [] = some e →
+        Py.latin1Enc e.pathInfo = some (pctDecode (target.takeWhile (· != '?')))) := by
+  intro h
+  have hmk : makeEnviron "GET".toList (httpServerPath "//a".toList) "HTTP/1.1".toList []
+      = some { method := "GET".toList, pathInfo := "/a".toList, query := [], protocol := "HTTP/1.1".toList,
+               rawUri := "/a".toList, headers := [], terminated := false } := by rfl
+  have := h "//a".toList _ (by decide) (by decide) hmk
+  revert this
+  decide +kernel
+
+/-- the same single slash without http.server's help: werkzeug's repair on the unmodified target -/
+example : (makeEnviron "GET".toList "//double/slash?x=1".toList "HTTP/1.1".toList []).map (·.pathInfo)
+    = some "/double/slash".toList := by decide +kernel
+
+/-- **chunked_sets_terminated**: `wsgi.input_terminated` is set, and `wsgi.input` replaced by the
+de-chunking stream, exactly when the folded `Transfer-Encoding` value, stripped and lower-cased, is
+`chunked`; in particular a single dash-named `Transfer-Encoding: chunked` header (any letter case of
+name and value, underscore look-alikes ignored) sets it, and no such header leaves the input alone. -/
+theorem chunked_sets_terminated (cmd path ver : Str) (hs : List (Str × Str)) (e : Environ)
+    (h : makeEnviron cmd path ver hs = some e) :
+    (e.terminated = isChunkedRequest (foldHeaders hs)) ∧
+    (∀ v, valuesFor "TRANSFER_ENCODING".toList hs = [v] → lowerStr (Py.strip v) = "chunked".toList →
+      e.terminated = true) ∧
+    (valuesFor "TRANSFER_ENCODING".toList hs = [] → e.terminated = false) := by
+  have ht : e.terminated = isChunkedRequest (foldHeaders hs) := by
+    unfold makeEnviron at h
+    split at h
+    · cases h
+    · simp only [Option.some.injEq] at h; rw [← h]
+  have hf := header_folding hs "TRANSFER_ENCODING".toList (by decide)
+  refine ⟨ht, ?_, ?_⟩
+  · intro v hv hc
+    rw [ht]
+    rw [hv] at hf
+    simp only [List.flatMap_nil, List.append_nil] at hf
+    have hf' : (foldHeaders hs).get "HTTP_TRANSFER_ENCODING".toList = some v := hf
+    unfold isChunkedRequest
+    rw [hf']
+    simp only [hc, beq_self_eq_true]
+  · intro hv
+    rw [ht]
+    rw [hv] at hf
+    have hf' : (foldHeaders hs).get "HTTP_TRANSFER_ENCODING".toList = none := hf
+    unfold isChunkedRequest
+    rw [hf']
+
+example : (makeEnviron "POST".toList "/".toList "HTTP/1.1".toList
+    [("transfer-encoding".toList, " Chunked ".toList), ("Transfer_Encoding".toList, "x".toList)]).map (·.terminated)
+    = some true := by decide +kernel
+
+/-! ### the response writer -/
+
+/-- **Headers exactly once, before the first body byte; zero chunk exactly when chunked**: for every
+sequence of `write()` calls and yielded pieces — empty pieces, no pieces at all, an empty header
+list — the wire is the head (status line, `Server`/`Date`, the application's headers in order,
+`Transfer-Encoding: chunked` iff the framing decision says so, `Connection: close`, blank line)
+followed by the framed body. -/
+theorem response_head_once (r : Resp) (written yielded : List Bytes) :
+    runWsgi r written yielded = r.head ++ bodyWire r.chunked (written ++ yielded) :=
+  runWsgi_closed r written yielded
+
+/-- **response_wire_exact**: when the status line and header lines contain no CR (and header names no
+`:`), parsing the bytes on the wire — lines up to the first empty line, then the body — returns
+exactly the status line and, in order, the headers the application produced (between the server's
+`Server`/`Date` and the writer's framing / `Connection: close` lines); and the body, de-chunked with
+any read sizes when the response is chunked, is exactly the concatenation of the pieces the
+application wrote and yielded. -/
+theorem response_wire_exact (r : Resp) (written yielded : List Bytes)
+    (hclean : ∀ l ∈ r.headLines, 13 ∉ l ∧ l ≠ []) :
+    parseHead (r.headLines.length + 1) (runWsgi r written yielded)
+      = some (r.headLines, bodyWire r.chunked (written ++ yielded)) ∧
+    (∀ k v : Str, 58 ∉ strBytes k → splitHeaderLine (strBytes k ++ [58, 32] ++ strBytes v) = (strBytes k, strBytes v)) ∧
+    (r.chunked = true → ∀ tail sizes,
+      (readMany { wire := bodyWire true (written ++ yielded) ++ tail } sizes).1
+        = (slices (written ++ yielded).flatten sizes).map .ok) ∧
+    (r.chunked = false → bodyWire r.chunked (written ++ yielded) = (written ++ yielded).flatten) := by
+  refine ⟨?_, fun k v hk => splitHeaderLine_render _ _ hk, ?_, ?_⟩
+  · rw [runWsgi_closed]
+    unfold Resp.head
+    exact parseHead_lines r.headLines _ hclean
+  · intro _ tail sizes
+    exact (response_wire_roundtrip (written ++ yielded) tail sizes).1
+  · intro hc
+    rw [hc]
+    exact (response_wire_roundtrip (written ++ yielded) [] []).2
+
+example : runWsgi ⟨"HTTP/1.1".toList, "200 OK".toList, [], [], false⟩ [] []
+    = strBytes "HTTP/1.1 200 OK\r\nTransfer-Encoding: chunked\r\nConnection: close\r\n\r\n0\r\n\r\n".toList := by
+  decide +kernel
 
 end Wz.Props.C19
